@@ -505,10 +505,23 @@ def evaluate(inp):
         if r.resolutions != nlev:
             return bad('levels', nlev, r.resolutions, nontrivial=nontrivial)
         prev_fine = None
+        prev_obj = None
         steps = []
         for i in range(nlev):
             coarse, fine = r.resolve()
             last = aa and i == nlev - 1
+            if prev_obj is not None:
+                # the fine graph handed out by the previous step is what the caller still holds: it must describe the
+                # same coarse level as the graph returned now (same nodes, same fine nodes carried by each node)
+                held = {n: (d.get('fragname'), sorted(d['graph'].nodes) if d.get('graph') is not None else None)
+                        for n, d in prev_obj.nodes(data=True)}
+                now = {n: (d.get('fragname'), sorted(d['graph'].nodes) if d.get('graph') is not None else None)
+                       for n, d in coarse.nodes(data=True)}
+                if held != now:
+                    diff = sorted(n for n in set(held) | set(now) if held.get(n) != now.get(n))[:4]
+                    return bad('step-previous-fine-graph-left-inconsistent', None,
+                               {'step': i, 'string': inp['string'], 'nodes': diff,
+                                'held': [held.get(n) for n in diff], 'returned': [now.get(n) for n in diff]}, nontrivial=nontrivial)
             if prev_fine is not None:
                 pn, pe = prev_fine
                 cn = sorted((n, d.get('fragname')) for n, d in coarse.nodes(data=True))
@@ -524,6 +537,7 @@ def evaluate(inp):
             prev_fine = (sorted((n, d.get('atomname')) for n, d in fine.nodes(data=True)),
                          sorted((min(a, b), max(a, b), d.get('order')) for a, b, d in fine.edges(data=True)))
             steps.append(dump(fine, last))
+            prev_obj = fine
         final1 = fine
         extra = None
         try:
